@@ -42,6 +42,7 @@ static int g_count_reads = 0;         /* inject/log: read-side calls (stat, open
 static long g_fail_at = -1;           /* inject: the k-th mutating call FAILS with g_fail_errno instead of running */
 static int g_fail_errno = 28;         /* ENOSPC */
 static __thread int t_fail = 0;
+static __thread int t_short = 0;      /* VSHIM_FAIL_ERRNO < 0: the chosen write-like call is SHORT (half the bytes), not failed */
 static long vshim_fail(void) { t_fail = 0; errno = g_fail_errno; return -1; }
 static long g_counter = 0;
 static char g_roots[8][PATH_MAX];
@@ -237,8 +238,13 @@ static void mut_event(const char *call, const char *p1, const char *p2, long siz
     esc(p2 ? p2 : "", e2, sizeof e2);
     int kill_now = (g_mode == M_INJECT && n == g_kill_at);
     int fail_now = (g_mode == M_INJECT && n == g_fail_at);
-    if (fail_now) t_fail = 1;
-    int l = snprintf(line, sizeof line, "%ld\t%ld\t%s\t%s\t%s\t%ld\t%ld\t%s\n", n, (long)syscall(SYS_gettid), call, e1, e2, size, flags, kill_now ? "KILLED-BEFORE" : fail_now ? "FAILED" : "");
+    if (fail_now) {
+        if (g_fail_errno >= 0) t_fail = 1;
+        /* regular files only: a non-blocking pipe never takes a write short unless it is FULL, and tokio relies on
+         * exactly that (it waits for writability after a short write) — a short pipe write is not a possible answer */
+        else if (strcmp(p1 ? p1 : "", "<pipe>") && (!strncmp(call, "write", 5) || !strcmp(call, "copy_file_range") || !strcmp(call, "sendfile") || !strcmp(call, "splice"))) t_short = 1;
+    }
+    int l = snprintf(line, sizeof line, "%ld\t%ld\t%s\t%s\t%s\t%ld\t%ld\t%s\n", n, (long)syscall(SYS_gettid), call, e1, e2, size, flags, kill_now ? "KILLED-BEFORE" : fail_now ? (g_fail_errno >= 0 ? "FAILED" : (t_short ? "FAILED" : "")) : "");
     raw_write(g_logfd, line, (size_t)l);
     if (kill_now) {
         syscall(SYS_kill, getpid(), SIGKILL);
@@ -348,6 +354,7 @@ ssize_t write(int fd, const void *buf, size_t n) {
     REAL(write);
     ENTER();
     FD_EVENT("write", fd, (long)n, 0, 1, 1);
+    if (t_short) { t_short = 0; if (n > 1) n = n / 2; }
     ssize_t r = t_fail ? (ssize_t)vshim_fail() : real_write(fd, buf, n);
     FD_DONE("write", r);
     LEAVE();
@@ -368,6 +375,7 @@ ssize_t pwrite64(int fd, const void *buf, size_t n, off64_t off) {
     REAL(pwrite64);
     ENTER();
     FD_EVENT("write", fd, (long)n, 0, 1, 0);
+    if (t_short) { t_short = 0; if (n > 1) n = n / 2; }
     ssize_t r = t_fail ? (ssize_t)vshim_fail() : real_pwrite64(fd, buf, n, off);
     FD_DONE("write", r);
     LEAVE();
@@ -377,6 +385,7 @@ ssize_t pwrite(int fd, const void *buf, size_t n, off_t off) {
     REAL(pwrite);
     ENTER();
     FD_EVENT("write", fd, (long)n, 0, 1, 0);
+    if (t_short) { t_short = 0; if (n > 1) n = n / 2; }
     ssize_t r = t_fail ? (ssize_t)vshim_fail() : real_pwrite(fd, buf, n, off);
     FD_DONE("write", r);
     LEAVE();
@@ -488,6 +497,7 @@ ssize_t copy_file_range(int in, off64_t *oi, int out, off64_t *oo, size_t n, uns
     ENTER();
     if (active_) sched_want_input_if_stdin(in);
     FD_EVENT("copy_file_range", out, (long)n, 0, 1, 0);
+    if (t_short) { t_short = 0; if (n > 1) n = n / 2; }
     ssize_t r = t_fail ? (ssize_t)vshim_fail() : real_copy_file_range(in, oi, out, oo, n, fl);
     if (active_ && rel_ && (g_mode == M_LOG || g_mode == M_INJECT) && r >= 0) {
         char l[96];
@@ -503,6 +513,7 @@ ssize_t sendfile64(int out, int in, off64_t *off, size_t n) {
     if (!real_sf) real_sf = dlsym(RTLD_NEXT, "sendfile64");
     ENTER();
     FD_EVENT("sendfile", out, (long)n, 0, 1, 1);
+    if (t_short) { t_short = 0; if (n > 1) n = n / 2; }
     ssize_t r = t_fail ? (ssize_t)vshim_fail() : real_sf(out, in, off, n);
     FD_DONE("sendfile", r);
     LEAVE();
@@ -513,6 +524,7 @@ ssize_t sendfile(int out, int in, off_t *off, size_t n) {
     if (!real_sf) real_sf = dlsym(RTLD_NEXT, "sendfile");
     ENTER();
     FD_EVENT("sendfile", out, (long)n, 0, 1, 1);
+    if (t_short) { t_short = 0; if (n > 1) n = n / 2; }
     ssize_t r = t_fail ? (ssize_t)vshim_fail() : real_sf(out, in, off, n);
     FD_DONE("sendfile", r);
     LEAVE();
@@ -523,6 +535,7 @@ ssize_t splice(int in, off64_t *oi, int out, off64_t *oo, size_t n, unsigned fl)
     ENTER();
     if (active_) sched_want_input_if_stdin(in);
     FD_EVENT("splice", out, (long)n, 0, 1, 1);
+    if (t_short) { t_short = 0; if (n > 1) n = n / 2; }
     ssize_t r = t_fail ? (ssize_t)vshim_fail() : real_splice(in, oi, out, oo, n, fl);
     FD_DONE("splice", r);
     LEAVE();
